@@ -9,4 +9,4 @@ class PatternTokenTranslator(AbstractTranslator):
     def translate(cls, token: PatternToken, excel: Excel, context: Context) -> str:
         # a text literal like any other (the matched text includes its double quotes): as an operand it evaluates to exactly
         # the original text; it is turned into a regular expression only where a criterion is built (LambdaTokenTranslator)
-        return repr(token.value[0][1:-1])
+        return repr(token.value[0][1:-1].replace('""', '"'))
